@@ -12,6 +12,8 @@
 //   K<sig>            die by signal sig
 //   I<sig>            ignore signal sig
 //   Z                 never exit (pause forever)
+//   T                 from here on W writes text instead of pseudo-random bytes: no NUL bytes, full of printf conversion
+//                     specifications ("%s%n ... 100% done") - what a real tool's diagnostics can contain
 //   G<mask>,<secs>    start a background descendant (fork, no exec) that keeps the inherited descriptors named by
 //                     mask (bit 0 = stdin, bit 1 = stdout, bit 2 = stderr) open, closes everything else, writes
 //                     nothing and lives for secs seconds - or until the process that started the child (the
@@ -81,7 +83,13 @@ inline uint8_t pattern_byte(int stream, uint64_t off) {
   return static_cast<uint8_t>((x >> 56) ^ (x >> 29) ^ off);
 }
 
-inline void fill_pattern(char* dst, int stream, uint64_t off, size_t n) {
+constexpr char kTextPattern[] = "%s%n%s%s 100% done %999999999d %ls%hhn %s%s%s%s%s%s%s%s\n";
+inline void fill_pattern(char* dst, int stream, uint64_t off, size_t n, bool text = false) {
+  if (text) {
+    constexpr size_t len = sizeof(kTextPattern) - 1;
+    for (size_t i = 0; i < n; i++) dst[i] = kTextPattern[(off + i + static_cast<uint64_t>(stream) * 5) % len];
+    return;
+  }
   for (size_t i = 0; i < n; i++) dst[i] = static_cast<char>(pattern_byte(stream, off + i));
 }
 
@@ -131,8 +139,10 @@ inline bool child_write_all(int fd, const char* p, size_t n) {
   record();
   static char buf[1 << 16];
   uint64_t out_off[3] = {0, 0, 0};
+  bool text = false;
   for (const Op& op : ops) {
     switch (op.code) {
+      case 'T': text = true; break;
       case 'R':
       case 'Q':
       case 'E': {
@@ -168,7 +178,7 @@ inline bool child_write_all(int fd, const char* p, size_t n) {
         size_t chunk = (op.a[2] && op.a[2] < sizeof(buf)) ? op.a[2] : sizeof(buf);
         while (n > 0) {
           size_t k = n < chunk ? n : chunk;
-          fill_pattern(buf, fd, out_off[fd], k);
+          fill_pattern(buf, fd, out_off[fd], k, text);
           if (!child_write_all(fd, buf, k)) break;
           out_off[fd] += k;
           n -= k;
